@@ -28,8 +28,14 @@ def _os_write_pipe(ex, st, self_v, args, kwargs, node):
     return [ex.res(st, SInt(1)), ex.res_exc(bad, e)]
 
 
+class _WorkerFactoryModel(ClassModel):
+    def hasattr(self, ex, st, ref, o, name):
+        return False            # worker_class.check_config (gthread only) is outside the modelled state
+
+
 def mk_arbiter(env, st, pidfile=None, tracked_are_children=False):
     env.use_class("gunicorn.arbiter", "Arbiter")
+    env.class_models["WorkerFactory"] = _WorkerFactoryModel()
     mk_kernel(st)
     STUBS["os.write"] = _os_write_pipe
     STUBS["posix.write"] = _os_write_pipe
@@ -324,7 +330,8 @@ class SpawnWorkers(Contract):
                 ("existing-workers-kept", z3.ForAll([p], Implies(sel(m0, p) != 0, sel(m1, p) == sel(m0, p)))),
                 ("new-workers-are-younger-than-all-previous", z3.ForAll([p], Implies(And(sel(m0, p) == 0, sel(m1, p) != 0), age_of(st1, sel(m1, p)) > wa0))),
                 ("ages-of-existing-workers-kept", z3.ForAll([p], Implies(sel(m0, p) != 0, age_of(st1, sel(m0, p)) == age_of(st0, sel(m0, p))))),
-                ("worker_age-only-grows", A(c, st1).fields["worker_age"].t >= wa0)]
+                ("worker_age-only-grows", A(c, st1).fields["worker_age"].t >= wa0),
+                ("Inv-preserved:every-tracked-pid-is-a-child-the-kernel-knows", z3.ForAll([p], Implies(sel(m1, p) != 0, sel(st1.ghost["K_state"], p) != 0)))]
 
     loops = {0: dict(anchor="for _ in range(self.num_workers - len(self.WORKERS))", cands=[
         ("size==n0+i", lambda L: w_size(L.st, _W(L)) == w_size(L.fentry, _W(L)) + L.loop_index),
@@ -418,6 +425,12 @@ class ManageWorkers(Contract):
                  z3.ForAll([p, q], Implies(And(termed(p), sel(m1, p) != 0, sel(m1, q) != 0, Not(termed(q))),
                                            age_of(st1, sel(m1, p)) < age_of(st1, sel(m1, q))))),
                 ("nothing-retired-when-not-above-target", Implies(Max(n0, nw) <= nw, z3.ForAll([p], Not(termed(p))))),
+                ("someone-is-retired-when-above-target", Implies(Max(n0, nw) > nw, z3.Exists([p], termed(p)))),
+                ("tracked-afterwards-are-previous-workers-or-younger-than-all-previous",
+                 z3.ForAll([p], Implies(sel(m1, p) != 0, Or(And(sel(m1, p) == sel(m0, p), age_of(st1, sel(m1, p)) == age_of(st0, sel(m0, p))),
+                                                            And(sel(m0, p) == 0, age_of(st1, sel(m1, p)) > wa0))))),
+                ("pool-size-afterwards", n1 == Max(n0, nw)),
+                ("Inv-preserved:every-tracked-pid-is-a-child-the-kernel-knows", z3.ForAll([p], Implies(sel(m1, p) != 0, sel(st1.ghost["K_state"], p) != 0))),
                 ]
 
     loops = {0: dict(anchor="while len(workers) > self.num_workers", cands=[
@@ -429,6 +442,9 @@ class ManageWorkers(Contract):
         ("never-below-target", lambda L: _mw_len(L)),
         ("lemma:every-tracked-worker-is-in-the-sorted-list", lambda L: _mw_cover(L)),
         ("lemma:sorted-list-is-strictly-ascending-by-age", lambda L: _mw_strict(L)),
+        ("Inv:tracked-are-children", lambda L: _inv_children(L)),
+        ("lemma:first-of-the-surplus-got-its-TERM", lambda L: _mw_first(L)),
+        ("size-fixed", lambda L: w_size(L.st, _W(L)) == w_size(L.entry, _W(L))),
     ])}
 
 
@@ -452,6 +468,13 @@ def _mw_strict(L):
     i, j = qvar("i"), qvar("j")
     return z3.ForAll([i, j], Implies(And(ent.lo <= i, i < j, j < ent.hi),
                                      age_of(L.entry, ent.elem(i).items[1].t) < age_of(L.entry, ent.elem(j).items[1].t)))
+
+
+def _mw_first(L):
+    cur, ent = L.st.obj(L.workers).sym, L.entry.obj(L.workers).sym
+    k1, k0 = sig_arr(L.st, TERM), sig_arr(L.entry, TERM)
+    pid0 = ent.elem(ent.lo).items[0].t
+    return Implies(cur.lo > ent.lo, sel(k1, pid0) == sel(k0, pid0) + 1)
 
 
 def _mw_view(L):
@@ -899,3 +922,585 @@ class HandleInt(_TermLike):
 @contract("gunicorn.arbiter:Arbiter.handle_quit", props=("C04",))
 class HandleQuit(HandleInt):
     pass
+
+
+# ======================================================================================================
+# USR2: reexec / maybe_promote_master / handle_usr2 / handle_winch (C14)
+# ======================================================================================================
+def _execvpe(ex, st, self_v, args, kwargs, node):
+    st.ghost["exec"] = {"file": args[0], "args": args[1], "env": args[2]}
+    return [ex.res_exc(st, SExc(SystemExit, (SInt(0),), {"code": SInt(0), "g_exec": SBool(True)}))]    # exec never returns
+
+
+def _chdir(ex, st, self_v, args, kwargs, node):
+    return R1(ex, st, NONE)
+
+
+class EnvDictModel(ClassModel):
+    """os.environ / cfg.env_orig: a str->str mapping with ghost 'set' record (only the keys the code writes are tracked)"""
+
+    def call(self, ex, st, self_v, meth, args, kwargs, node):
+        o = st.obj(self_v)
+        if meth == "copy":
+            return [ex.res(st, st.alloc(HObj("EnvDict", {"g_set": HDict_items(st, o)})))]
+        if meth == "get":
+            k = args[0].concrete_py()
+            d = st.obj(o.fields["g_set"]).items
+            if k in d:
+                return [ex.res(st, d[k])]
+            return [ex.res(st, args[1] if len(args) > 1 else NONE)]
+        if meth == "pop":
+            k = args[0].concrete_py()
+            d = st.obj(o.fields["g_set"]).items
+            if k in d:
+                return [ex.res(st, d.pop(k))]
+            return [ex.res_exc(st, SExc(KeyError))]
+        return None
+
+    def setitem(self, ex, st, ref, o, key, v):
+        st.obj(o.fields["g_set"]).items[key.concrete_py()] = v
+        return [(st, None)]
+
+    def contains(self, ex, st, ref, o, item):
+        k = item.concrete_py()
+        d = st.obj(o.fields["g_set"]).items
+        if k in d:
+            return TRUE
+        return z3.Bool("environ.has.%s" % k)
+
+    def delitem(self, ex, st, ref, o, key):
+        st.obj(o.fields["g_set"]).items.pop(key.concrete_py(), None)
+        st.ghost["env_deleted"] = list(st.ghost.get("env_deleted", [])) + [key.concrete_py()]
+        return [(st, None)]
+
+
+def HDict_items(st, o):
+    src = st.obj(o.fields["g_set"])
+    return st.alloc(HDict(dict(src.items)))
+
+
+ENVDICT = EnvDictModel()
+
+
+def mk_envdict(env, st):
+    env.class_models["EnvDict"] = ENVDICT
+    return st.alloc(HObj("EnvDict", {"g_set": st.alloc(HDict({}))}))
+
+
+@contract("gunicorn.arbiter:Arbiter.reexec", props=("C14",))
+class Reexec(Contract):
+    def cases(self, env):
+        STUBS["os.execvpe"] = _execvpe
+        STUBS["posix.execvpe"] = _execvpe
+        STUBS["os.chdir"] = _chdir
+        STUBS["posix.chdir"] = _chdir
+        out = []
+        for systemd in (False, True):
+            st = State()
+            a = mk_arbiter(env, st)
+            socks = mk_listeners(env, st, a, n=2)
+            for k, s_ in enumerate(socks):
+                st.obj(s_).fields["g_fd"] = SInt(z3.Int("lfd%d" % k))
+            o = st.obj(a)
+            o.fields["systemd"] = SBool(systemd)
+            cfg = st.obj(o.fields["cfg"])
+            cfg.fields["env_orig"] = mk_envdict(env, st)
+            o.fields["START_CTX"] = st.alloc(HDict({"cwd": strops.fresh_str(st, "cwd", True), "args": Opaque("argv"), 0: strops.fresh_str(st, "exe", True)}))
+            st.ghost["close_calls"] = []
+            out.append(("systemd=%s" % systemd, st, {"self": a}, {"socks": socks}))
+        return out
+
+    def raises(self, c):
+        return [(SystemExit, None), (OSError, None)]
+
+    def no_close(self, c):
+        socks = c.g["socks"] if "socks" in c.g else (c.ex.concrete_items(c.old, A(c, c.old).fields["LISTENERS"]) or [])
+        from .creds import sock_events
+        closed = [s_ for s_ in socks if any(e[0] == "close" for e in sock_events(c.st, s_))]
+        return [("no-listener-is-closed", TRUE if (not closed and not c.st.ghost.get("close_calls")) else FALSE)]
+
+    def exc_post(self, c):
+        if c.exc is not None and c.exc.cls is SystemExit and c.mode != "call":
+            x = c.st.ghost.get("exec")
+            out = self.no_close(c)
+            if x is None:
+                return out + [("child-execs", FALSE)]
+            envd = c.st.obj(c.st.obj(x["env"]).fields["g_set"]).items
+            o0 = A(c, c.old)
+            out.append(("exec-only-in-the-forked-child-when-no-upgrade-is-pending",
+                        And(TRUE if c.st.ghost.get("in_child", False) else FALSE, o0.fields["reexec_pid"].t == 0, o0.fields["master_pid"].t == 0)))
+            gp = envd.get("GUNICORN_PID")
+            out.append(("GUNICORN_PID==str(parent pid)", TRUE if (isinstance(gp, SStr) and len(gp.atoms) == 1 and hasattr(gp.atoms[0], "t") and gp.atoms[0].t.eq(z3.Int("me"))) else FALSE))
+            from pyvc.smt import const_bool
+            if const_bool(c.ex.truth(o0.fields["systemd"], c.old)):
+                out.append(("systemd:LISTEN_FDS==number-of-listeners", TRUE if ("LISTEN_FDS" in envd and envd["LISTEN_FDS"].concrete_py() == "2") else FALSE))
+                out.append(("systemd:no-GUNICORN_FD", TRUE if "GUNICORN_FD" not in envd else FALSE))
+            else:
+                fd = envd.get("GUNICORN_FD")
+                ok = isinstance(fd, SStr) and [type(a_).__name__ for a_ in fd.atoms] == ["Num", "Lit", "Num"] and fd.atoms[1].b == b"," \
+                    and fd.atoms[0].t.eq(z3.Int("lfd0")) and fd.atoms[2].t.eq(z3.Int("lfd1"))
+                out.append(("GUNICORN_FD==comma-joined-filenos-of-all-listeners-in-order", TRUE if ok else FALSE))
+            return out
+        return []
+
+    def post(self, c):
+        st1, st0 = c.st, c.old
+        o1, o0 = A(c, st1), A(c, st0)
+        pending = Or(o0.fields["reexec_pid"].t != 0, o0.fields["master_pid"].t != 0)
+        forks = st1.ghost.get("forks", iv(0))
+        return self.no_close(c) + [
+            ("further-USR2-ignored-while-an-upgrade-is-pending", Implies(pending, And(forks == 0, o1.fields["reexec_pid"].t == o0.fields["reexec_pid"].t))),
+            ("parent-remembers-the-new-master", Implies(Not(pending), And(forks == 1, o1.fields["reexec_pid"].t > 0))),
+            ("returns-only-in-the-parent", TRUE if not st1.ghost.get("in_child", False) else FALSE)]
+
+
+def _lsock_fileno(ex, st, self_v, args, kwargs, node):
+    return R1(ex, st, st.obj(self_v).fields["g_fd"])
+
+
+STUBS["lsock.fileno"] = _lsock_fileno
+
+
+@contract("gunicorn.arbiter:Arbiter.maybe_promote_master", props=("C14",))
+class MaybePromote(Contract):
+    def cases(self, env):
+        st = State()
+        a = mk_arbiter(env, st)
+        env.class_models["PidfileModel"] = _PidfileModel()
+        o = st.obj(a)
+        o.fields["pidfile"] = st.alloc(HObj("PidfileModel", {"g_unlinks": SInt(0)}))
+        cfg = st.obj(o.fields["cfg"])
+        cfg.fields["pidfile"] = strops.fresh_str(st, "cfg.pidfile", True, canonical=True)
+        st.ghost["os.environ"] = mk_envdict(env, st)
+        st.obj(st.obj(st.ghost["os.environ"]).fields["g_set"]).items["GUNICORN_PID"] = SStr.lit("1")
+        return [("promote", st, {"self": a}, {})]
+
+    def raises(self, c):
+        return [(RuntimeError, None), (OSError, None), (KeyError, None)]
+
+    def post(self, c):
+        st1, st0 = c.st, c.old
+        o1, o0 = A(c, st1), A(c, st0)
+        mp0 = o0.fields["master_pid"].t
+        ppid = z3.Int("ppid.now")
+        promoted = And(mp0 != 0, mp0 != ppid)
+        pf = st1.obj(o1.fields["pidfile"])
+        renamed = pf.fields.get("g_renamed_to")
+        cfgpf = c.field(o0.fields["cfg"], "pidfile", st0)
+        ren_ok = TRUE if (renamed is not None and isinstance(cfgpf, SStr) and renamed.atoms == cfgpf.atoms) else FALSE
+        return [("promoted-iff-the-old-master-is-no-longer-the-parent", o1.fields["master_pid"].t == If(promoted, iv(0), mp0)),
+                ("promotion-moves-the-pid-file-to-the-configured-name", Implies(promoted, ren_ok)),
+                ("no-rename-without-promotion", Implies(Not(promoted), TRUE if renamed is None else FALSE)),
+                ("GUNICORN_PID-dropped-on-promotion", Implies(promoted, TRUE if "GUNICORN_PID" in st1.ghost.get("env_deleted", []) else FALSE))]
+
+
+# ======================================================================================================
+# setup / reload / handle_hup (C10), start (C14), handle_usr2 / handle_winch
+# ======================================================================================================
+class ArbApp(ClassModel):
+    """the Application object as the arbiter sees it: reload() re-reads the configuration and installs a NEW cfg object
+    (ASSUMED: Application.reload -> do_load_config builds a fresh Config; C16 is about what it contains)"""
+
+    def call(self, ex, st, self_v, meth, args, kwargs, node):
+        o = st.obj(self_v)
+        if meth == "reload":
+            o.fields["cfg"] = o.fields["g_newcfg"]
+            o.fields["g_reloads"] = SInt(o.fields["g_reloads"].t + 1)
+            bad = st.fork()
+            return [ex.res(st, NONE), ex.res_exc(bad, SExc(RuntimeError))]
+        if meth == "wsgi":
+            return [ex.res(st, Opaque("wsgi-callable"))]
+        return None
+
+
+def mk_cfg2(env, st, tag, pidfile=None):
+    """a Config whose arbiter-relevant settings are independent symbols tagged `tag`"""
+    cfg = mk_cfg(env, st)
+    f = st.obj(cfg).fields
+    w, t = z3.Int(tag + ".workers"), z3.Int(tag + ".timeout")
+    st.assume(w >= 1, t >= 0)
+    f.update({"address": strops.fresh_str(st, tag + ".address", True, canonical=True), "workers": SInt(w), "timeout": SInt(t),
+              "proc_name": strops.fresh_str(st, tag + ".proc_name", True, canonical=True),
+              "pidfile": pidfile if pidfile is not None else NONE, "env": st.alloc(HDict({})), "env_orig": mk_envdict(env, st),
+              "worker_class": st.alloc(HObj("WorkerFactory", {"g_tag": tag})), "preload_app": SBool(z3.Bool(tag + ".preload_app")),
+              "worker_class_str": SStr.lit("sync"), "settings": Opaque("settings")})
+    return cfg
+
+
+def _ctor_pidfile(ex, st, self_v, args, kwargs, node):
+    ex.env.class_models["PidfileModel"] = _PidfileModel2()
+    return R1(ex, st, st.alloc(HObj("PidfileModel", {"g_unlinks": SInt(0), "g_fname": args[0], "g_created": NONE})))
+
+
+class _PidfileModel2(_PidfileModel):
+    def call(self, ex, st, self_v, meth, args, kwargs, node):
+        o = st.obj(self_v)
+        if meth == "create":
+            o.fields["g_created"] = args[0]
+            bad = st.fork()
+            return [ex.res(st, NONE), ex.res_exc(bad, SExc(RuntimeError))]
+        return _PidfileModel.call(self, ex, st, self_v, meth, args, kwargs, node)
+
+
+def _setproctitle(ex, st, self_v, args, kwargs, node):
+    return R1(ex, st, NONE)
+
+
+def mk_reload_world(env, st, pidfile=False):
+    STUBS["ctor:Pidfile"] = _ctor_pidfile
+    STUBS["gunicorn.util._setproctitle"] = _setproctitle
+    env.class_models["ArbApp"] = ArbApp()
+    env.class_models["PidfileModel"] = _PidfileModel2()
+    a = mk_arbiter(env, st, tracked_are_children=True)
+    o = st.obj(a)
+    socks = mk_listeners(env, st, a, n=2)
+    cfg1 = mk_cfg2(env, st, "cfg1")
+    cfg2 = mk_cfg2(env, st, "cfg2", pidfile=(strops.fresh_str(st, "cfg2.pidfile", True, canonical=True) if pidfile else None))
+    o.fields["cfg"] = cfg1
+    app = st.alloc(HObj("ArbApp", {"cfg": cfg1, "g_newcfg": cfg2, "g_reloads": SInt(0)}))
+    o.fields["app"] = app
+    o.fields["address"] = st.obj(cfg1).fields["address"]
+    if pidfile:
+        o.fields["pidfile"] = st.alloc(HObj("PidfileModel", {"g_unlinks": SInt(0), "g_fname": Opaque("old"), "g_created": NONE}))
+    st.ghost["os.environ"] = mk_envdict(env, st)
+    st.ghost["close_calls"] = []
+    return a, socks, cfg1, cfg2, app
+
+
+@contract("gunicorn.arbiter:Arbiter.setup", props=("C10", "C16"))
+class Setup(Contract):
+    def cases(self, env):
+        st = State()
+        a, socks, cfg1, cfg2, app = mk_reload_world(env, st)
+        st.obj(app).fields["cfg"] = cfg2         # as after app.reload()
+        return [("setup", st, {"self": a, "app": app}, {"cfg2": cfg2, "socks": socks})]
+
+    def modifies(self, c):
+        s = c.a["self"]
+        if c.mode == "call":          # effects() installs the new values constructively
+            return [("ghost", "os.environ")]
+        return [("field", s, "app"), ("field", s, "cfg"), ("field", s, "worker_class"), ("field", s, "address"),
+                ("field", s, "_num_workers"), ("field", s, "timeout"), ("field", s, "proc_name"), ("ghost", "os.environ")]
+
+    def raises(self, c):
+        return [(Exception, None)]
+
+    def effects(self, c):
+        o = A(c)
+        cfg = c.st.obj(c.a["app"]).fields["cfg"]
+        o.fields["app"] = c.a["app"]
+        o.fields["cfg"] = cfg
+        cf = c.st.obj(cfg).fields
+        o.fields["worker_class"] = cf["worker_class"]
+        o.fields["address"] = cf["address"]
+        o.fields["_num_workers"] = cf["workers"]
+        o.fields["timeout"] = cf["timeout"]
+        o.fields["proc_name"] = cf["proc_name"]
+
+    def post(self, c):
+        if c.mode == "call":
+            return []
+        o1 = A(c)
+        cfg = c.st.obj(c.a["app"]).fields["cfg"]
+        cf = c.st.obj(cfg).fields
+        same = lambda x, y: TRUE if (x is y or (isinstance(x, SStr) and isinstance(y, SStr) and x.atoms == y.atoms) or
+                                      (isinstance(x, Ref) and isinstance(y, Ref) and x.oid == y.oid)) else FALSE
+        return [("cfg-is-the-application's-current-cfg", same(o1.fields["cfg"], cfg)),
+                ("num_workers==cfg.workers", o1.fields["_num_workers"].t == cf["workers"].t),
+                ("timeout==cfg.timeout", o1.fields["timeout"].t == cf["timeout"].t),
+                ("worker_class==cfg.worker_class", same(o1.fields["worker_class"], cf["worker_class"])),
+                ("address==cfg.address", same(o1.fields["address"], cf["address"])),
+                ("proc_name==cfg.proc_name", same(o1.fields["proc_name"], cf["proc_name"]))]
+
+
+def _listener_events(c, socks):
+    from .creds import sock_events
+    return [e for s_ in socks for e in sock_events(c.st, s_)]
+
+
+@contract("gunicorn.arbiter:Arbiter.reload", props=("C10", "C03"))
+class Reload(Contract):
+    weight = 4
+
+    def cases(self, env):
+        out = []
+        for pf in (False, True):
+            st = State()
+            a, socks, cfg1, cfg2, app = mk_reload_world(env, st, pidfile=pf)
+            out.append(("pidfile=%s" % pf, st, {"self": a}, {"cfg1": cfg1, "cfg2": cfg2, "socks": socks, "app": app, "pf": pf}))
+        return out
+
+    def pre(self, c):
+        return SpawnWorker.pre(SpawnWorker(), c)
+
+    def raises(self, c):
+        return [(Exception, None), (SystemExit, None)]
+
+    def post(self, c):
+        st1, st0 = c.st, c.old
+        o1, o0 = A(c, st1), A(c, st0)
+        g = c.g
+        if "cfg1" not in g:      # call mode: the same quantities read off the caller's state
+            app = o0.fields["app"]
+            g = {"cfg1": o0.fields["cfg"], "cfg2": st0.obj(app).fields["g_newcfg"], "app": app,
+                 "socks": c.ex.concrete_items(st0, o0.fields["LISTENERS"]), "pf": isinstance(o0.fields["pidfile"], Ref)}
+        W = o0.fields["WORKERS"]
+        m1, m0 = w_map(st1, W), w_map(st0, W)
+        wa0 = o0.fields["worker_age"].t
+        k1, k0 = sig_arr(st1, TERM), sig_arr(st0, TERM)
+        p, q = qvar("p"), qvar("q")
+        addr1 = st1.obj(g["cfg1"]).fields["address"]
+        addr2 = st1.obj(g["cfg2"]).fields["address"]
+        from pyvc.values import str_eq
+        unchanged = str_eq(addr1, addr2)
+        closed = [e for e in _listener_events(c, g["socks"]) if e[0] == "close"]
+        L1 = o1.fields["LISTENERS"]
+        same_list = isinstance(L1, Ref) and L1.oid == o0.fields["LISTENERS"].oid
+        nclose = len(closed)
+        ncreate = len(st1.ghost.get("create_sockets_calls", []))
+        termed = lambda x: sel(k1, x) > sel(k0, x)
+        new = lambda x: And(sel(m0, x) == 0, sel(m1, x) != 0)
+        w2 = st1.obj(g["cfg2"]).fields["workers"].t
+        out = [("unchanged-bind-address:no-listener-closed-and-none-created",
+                Implies(unchanged, TRUE if (nclose == 0 and ncreate == 0 and same_list and not st1.ghost.get("close_calls")) else FALSE)),
+               ("changed-bind-address:every-old-listener-closed-once-and-new-ones-created",
+                Implies(Not(unchanged), TRUE if (nclose == len(g["socks"]) and ncreate == 1 and not same_list) else FALSE)),
+               ("configuration-re-read-exactly-once", st1.obj(g["app"]).fields["g_reloads"].t == 1),
+               ("runs-the-new-configuration", TRUE if (isinstance(o1.fields["cfg"], Ref) and o1.fields["cfg"].oid == g["cfg2"].oid) else FALSE),
+               ("target-is-the-newly-configured-number", o1.fields["_num_workers"].t == w2),
+               ("new-generation-is-younger-than-every-old-worker", z3.ForAll([p], Implies(new(p), age_of(st1, sel(m1, p)) > wa0))),
+               ("pool-afterwards-is-old-workers-plus-new-generation-only",
+                z3.ForAll([p], Implies(sel(m1, p) != 0, Or(And(sel(m1, p) == sel(m0, p), age_of(st1, sel(m1, p)) == age_of(st0, sel(m0, p))),
+                                                           And(sel(m0, p) == 0, age_of(st1, sel(m1, p)) > wa0))))),
+               ("pool-holds-old-plus-exactly-the-new-number", w_size(st1, W) == w_size(st0, W) + w2),
+               ("only-TERM-is-sent", all_sig_same(st1, st0, TERM)),
+               ("retirement-is-oldest-first:a-new-generation-worker-is-retired-only-if-every-older-one-is",
+                z3.ForAll([p, q], Implies(And(termed(p), sel(m1, p) != 0, sel(m1, q) != 0, Not(termed(q))),
+                                          age_of(st1, sel(m1, p)) < age_of(st1, sel(m1, q))))),
+               ("at-most-one-TERM-per-worker", z3.ForAll([p], And(sel(k1, p) >= sel(k0, p), sel(k1, p) <= sel(k0, p) + 1))),
+               ("some-worker-is-retired-whenever-old-ones-exist", Implies(w_size(st0, W) > 0, z3.Exists([p], termed(p))))]
+        if g["pf"]:
+            pf1 = o1.fields["pidfile"]
+            ok = isinstance(pf1, Ref) and pf1.oid != o0.fields["pidfile"].oid
+            if ok:
+                pfo = st1.obj(pf1)
+                ok = pfo.fields["g_fname"] is st1.obj(g["cfg2"]).fields["pidfile"] and isinstance(pfo.fields["g_created"], SInt) \
+                    and pfo.fields["g_created"].t.eq(z3.Int("me"))
+            out.append(("pid-file-recreated-under-the-new-name-with-the-master's-pid", TRUE if ok else FALSE))
+            out.append(("old-pid-file-unlinked-once", st1.obj(o0.fields["pidfile"]).fields["g_unlinks"].t == 1))
+        return out
+
+    loops = {0: dict(anchor="for k in self.cfg.env", cands=[]),
+             1: dict(anchor="for lnr in self.LISTENERS", cands=[]),
+             2: dict(anchor="for _ in range(self.cfg.workers)", cands=[
+                 ("size==n0+i", lambda L: w_size(L.st, _W(L)) == w_size(L.fentry, _W(L)) + L.loop_index),
+                 ("existing-kept", lambda L: _sp_inv(L)),
+                 ("Inv:tracked-are-children", lambda L: _inv_children(L)),
+                 ("no-signal-sent", lambda L: all_sig_same(L.st, L.fentry)),
+             ])}
+
+
+@contract("gunicorn.arbiter:Arbiter.handle_hup", props=("C10",))
+class HandleHup(Contract):
+    def cases(self, env):
+        st = State()
+        a, socks, cfg1, cfg2, app = mk_reload_world(env, st)
+        return [("hup", st, {"self": a}, {"app": app})]
+
+    def pre(self, c):
+        return SpawnWorker.pre(SpawnWorker(), c)
+
+    def raises(self, c):
+        return [(Exception, None), (SystemExit, None)]
+
+    def post(self, c):
+        return [("HUP-reloads-exactly-once", c.st.obj(c.g["app"]).fields["g_reloads"].t == 1)]
+
+
+inline("gunicorn.systemd:listen_fds")
+
+
+def _sd_notify(ex, st, self_v, args, kwargs, node):
+    return R1(ex, st, NONE)
+
+
+@contract("gunicorn.arbiter:Arbiter.init_signals", props=("C14",))
+class InitSignals(Contract):
+    """TRUSTED: installs the signal handlers and the wake-up pipe (no effect on the state C14 speaks about)"""
+    trusted = True
+
+    def raises(self, c):
+        return [(OSError, None)]
+
+
+@contract("gunicorn.arbiter:Arbiter.start", props=("C14", "C17"))
+class Start(Contract):
+    """the upgrade child (GUNICORN_PID in the environment) records its pid under '<pidfile>.2' and adopts exactly the
+    descriptors listed in GUNICORN_FD, in order; a first master uses the configured name and binds fresh sockets"""
+
+    def cases(self, env):
+        from pyvc.strops import decval
+        out = []
+        for upgrade in (False, True):
+            st = State()
+            STUBS["ctor:Pidfile"] = _ctor_pidfile
+            STUBS["gunicorn.systemd.sd_notify"] = _sd_notify
+            env.class_models["PidfileModel"] = _PidfileModel2()
+            a = mk_arbiter(env, st)
+            o = st.obj(a)
+            o.fields["LISTENERS"] = st.alloc(HList([]))
+            o.fields["master_pid"] = SInt(0)
+            cfg = st.obj(o.fields["cfg"])
+            cfg.fields["worker_class_str"] = SStr.lit("sync")
+            envd = mk_envdict(env, st)
+            st.ghost["os.environ"] = envd
+            items = st.obj(st.obj(envd).fields["g_set"]).items
+            g = {"upgrade": upgrade}
+            if upgrade:
+                items["GUNICORN_PID"] = strops.fresh_str(st, "env.GUNICORN_PID", True, canonical=True)
+                items["GUNICORN_FD"] = strops.fresh_str(st, "env.GUNICORN_FD", True, canonical=True)
+            else:
+                st.assume(Not(z3.Bool("environ.has.GUNICORN_PID")))
+            out.append(("upgrade-child" if upgrade else "first-master", st, {"self": a}, g))
+        return out
+
+    def raises(self, c):
+        return [(Exception, None), (SystemExit, None)]
+
+    def post(self, c):
+        from pyvc.strops import pyint
+        decval = lambda b_, lo_, hi_: pyint(b_, lo_, hi_, iv(10))
+        st1, st0 = c.st, c.old
+        o1, o0 = A(c, st1), A(c, st0)
+        up = c.g["upgrade"]
+        out = []
+        pf = o1.fields["pidfile"]
+        cfgpf = c.field(o0.fields["cfg"], "pidfile", st0)
+        calls = st1.ghost.get("create_sockets_calls", [])
+        reuse = z3.Bool("cfg.reuse_port")
+        if isinstance(pf, Ref):
+            fo = st1.obj(pf)
+            name = fo.fields["g_fname"]
+            base = cfgpf.inner if isinstance(cfgpf, SOpt) else cfgpf
+            want = list(base.atoms) + ([strops.Lit(b".2")] if up else [])
+            from .sockmodel import rope_struct_eq
+            if not isinstance(name, SStr):
+                ok = FALSE
+            elif up:
+                ok = If(o1.fields["master_pid"].t != 0, rope_struct_eq(name, SStr(want, True)), rope_struct_eq(name, SStr(list(base.atoms), True)))
+            else:
+                ok = rope_struct_eq(name, SStr(want, True))
+            out.append(("pid-file-name-is-the-configured-name" + ("-plus-.2-in-the-upgrade-child" if up else ""), ok))
+            out.append(("pid-file-holds-this-master's-pid", TRUE if (isinstance(fo.fields["g_created"], SInt) and fo.fields["g_created"].t.eq(z3.Int("me"))) else FALSE))
+        else:
+            out.append(("no-pid-file-only-when-none-is-configured", Not(cfgpf.some) if isinstance(cfgpf, SOpt) else FALSE))
+        if up:
+            gp = st0.obj(st0.obj(st0.ghost["os.environ"]).fields["g_set"]).items["GUNICORN_PID"].single_win()
+            out.append(("remembers-the-old-master", o1.fields["master_pid"].t == decval(gp.base, gp.lo, gp.hi)))
+            items1 = st1.obj(st1.obj(st1.ghost["os.environ"]).fields["g_set"]).items
+            out.append(("GUNICORN_FD-consumed-by-the-upgrade-child", Implies(And(o1.fields["master_pid"].t != 0, Not(reuse)), TRUE if "GUNICORN_FD" not in items1 else FALSE)))
+        else:
+            out.append(("not-an-upgrade:master_pid-stays-0", o1.fields["master_pid"].t == 0))
+        if len(calls) == 1:
+            fds = calls[0]
+            if up:
+                ok = FALSE
+                gfd = st0.obj(st0.obj(st0.ghost["os.environ"]).fields["g_set"]).items["GUNICORN_FD"]
+                if isinstance(fds, Ref) and isinstance(st1.obj(fds), HList) and st1.obj(fds).sym is not None and "split_seq" in st1.ghost:
+                    seq, pieces = st1.obj(fds).sym, st1.ghost["split_seq"]
+                    j = qvar("j")
+                    w = lambda k: pieces.elem(k).single_win()
+                    G = gfd.single_win()
+                    pq = qvar("p")
+                    first, last = w(pieces.lo), w(pieces.hi - 1)
+                    # `pieces` is characterised independently of how the code obtained it: it tiles the WHOLE value of
+                    # GUNICORN_FD into maximal comma-free fields
+                    tiles = And(pieces.length() >= 1, first.lo == G.lo, last.hi == G.hi,
+                                z3.ForAll([j], Implies(And(pieces.lo <= j, j < pieces.hi - 1),
+                                                       And(w(j).hi + 1 == w(j + 1).lo, z3.Select(G.base, w(j).hi) == 44))),
+                                z3.ForAll([j, pq], Implies(And(pieces.lo <= j, j < pieces.hi, w(j).lo <= pq, pq < w(j).hi),
+                                                           z3.Select(G.base, pq) != 44)))
+                    ok = And(TRUE if first.base.eq(G.base) else FALSE, tiles, seq.length() == pieces.length(),
+                             z3.ForAll([j], Implies(And(0 <= j, j < pieces.length()),
+                                                    seq.elem(seq.lo + j).t == decval(w(pieces.lo + j).base, w(pieces.lo + j).lo, w(pieces.lo + j).hi))))
+                out.append(("adopts-exactly-the-descriptors-of-GUNICORN_FD-in-order", Implies(o1.fields["master_pid"].t != 0, ok)))
+            else:
+                out.append(("first-master-binds-fresh-sockets(no-inherited-descriptors)", TRUE if isinstance(fds, SNone) else
+                            (Not(z3.Bool("never")) if False else FALSE)))
+        else:
+            out.append(("sockets-created-once-unless-reuse_port", And(reuse, TRUE if len(calls) == 0 else FALSE)))
+        return out
+
+    loops = {0: dict(anchor="for fd in os.environ.pop('GUNICORN_FD').split(',')", cands=[
+        ("len==i", lambda L: _fds_len(L)),
+        ("elems", lambda L: _fds_elems(L)),
+    ])}
+
+
+def _fds_view(L):
+    """(length, element-at-offset) of the local list `fds`, concrete-empty at loop entry and symbolic at the head"""
+    o = L.st.obj(L.fds)
+    if o.sym is not None:
+        return o.sym.length(), (lambda j: o.sym.elem(o.sym.lo + j).t)
+    if o.items is not None and not o.items:
+        return iv(0), (lambda j: iv(0))
+    raise Unsupported("fds has an unexpected shape")
+
+
+def _fds_len(L):
+    L.st.ghost["split_seq"] = L.ex.sym_seq(L.entry, L.iter)
+    return _fds_view(L)[0] == L.loop_index
+
+
+def _fds_elems(L):
+    from pyvc.strops import pyint
+    n, at = _fds_view(L)
+    pieces = L.ex.sym_seq(L.entry, L.iter)
+    j = qvar("j")
+    w = lambda k: pieces.elem(k).single_win()
+    return z3.ForAll([j], Implies(And(0 <= j, j < L.loop_index),
+                                  at(j) == pyint(w(pieces.lo + j).base, w(pieces.lo + j).lo, w(pieces.lo + j).hi, iv(10))))
+
+
+@contract("gunicorn.arbiter:Arbiter.handle_usr2", props=("C14",))
+class HandleUsr2(Contract):
+    def cases(self, env):
+        return Reexec.cases(Reexec(), env)
+
+    def raises(self, c):
+        return [(SystemExit, None), (OSError, None)]
+
+    def post(self, c):
+        return Reexec.post(Reexec(), c)
+
+
+@contract("gunicorn.arbiter:Arbiter.handle_winch", props=("C14",))
+class HandleWinch(Contract):
+    """WINCH: a daemonised master retires all its workers (target 0, TERM to each) but keeps the listeners; otherwise nothing"""
+
+    def cases(self, env):
+        st = State()
+        a = mk_arbiter(env, st)
+        socks = mk_listeners(env, st, a)
+        st.ghost["close_calls"] = []
+        return [("winch", st, {"self": a}, {"socks": socks})]
+
+    def raises(self, c):
+        return [(OSError, None)]
+
+    def post(self, c):
+        st1, st0 = c.st, c.old
+        o1, o0 = A(c, st1), A(c, st0)
+        W = o0.fields["WORKERS"]
+        m0 = w_map(st0, W)
+        k1, k0 = sig_arr(st1, TERM), sig_arr(st0, TERM)
+        K = st0.ghost["K_state"]
+        p = qvar("p")
+        daemon = z3.Bool("cfg.daemon")
+        closed = [e for e in _listener_events(c, c.g["socks"]) if e[0] == "close"]
+        return [("listeners-stay-open", TRUE if (not closed and not st1.ghost.get("close_calls")) else FALSE),
+                ("daemon:target-becomes-0", Implies(daemon, o1.fields["_num_workers"].t == 0)),
+                ("daemon:every-live-tracked-worker-gets-TERM", Implies(daemon, z3.ForAll([p], Implies(And(sel(m0, p) != 0, sel(K, p) != 0), sel(k1, p) == sel(k0, p) + 1)))),
+                ("not-daemon:nothing-happens", Implies(Not(daemon), And(o1.fields["_num_workers"].t == o0.fields["_num_workers"].t,
+                                                                         z3.ForAll([p], sel(k1, p) == sel(k0, p))))),
+                ("only-TERM-is-sent", all_sig_same(st1, st0, TERM))]
